@@ -38,6 +38,35 @@ CLAIMED = {
             'produces.',
             'Trusted: Lean kernel; hand-written recorder model tied by differential execution; thread-local flag modelled for '
             'one thread.', 'DESIGN.md 6/C09'),
+    'C15': ('Lean 4 theorems over a hand-written model of the S3 facade and cassette (bucket + mutation log, key layout, two-put '
+            'save, close); tied to /repo by differential execution of the REAL S3BasicFacade/S3TapeCassette on an in-memory fake '
+            'bucket: operation sequences on 1-3 cassettes in every read_only x transient x prefix combination, a crash after each '
+            'individual mutation of every save, re-read through a fresh read-only cassette',
+            'Kernel-checked: a read-only cassette never mutates; every mutation lies under the issuing cassette\'s own full/ or '
+            'metadata/ root in every interleaving; closing a writable transient cassette removes exactly those roots; '
+            'prefix-unrelated neighbours and foreign objects are untouched; discoverable => fetchable is preserved by every history '
+            'of saves cut at any mutation (fails with the puts swapped).',
+            'Trusted: Lean kernel; model tied by differential execution only; the fake S3 (strong read-after-write, lexicographic '
+            'listing); string-prefix reasoning over String.toList. Neighbour independence needs prefix-unrelated roots; the default '
+            'prefix vs prefixes full/metadata is known finding K8.', 'DESIGN.md 6/C15'),
+    'C16': ('Lean 4 theorems over the model of day-folder enumeration, last-modified predicate and the day-iterator merge; tied '
+            'to /repo by an exhaustive hour grid over 4 days across a month boundary (start, explicit or default end, recording '
+            'time), boundary and random minute-level instants, with a patched clock and fake bucket',
+            'Kernel-checked: the lookup never raises and returns a recording iff it matches and s <= t <= e (explicit end) or '
+            's <= t (default end, nothing newer than now), for every window alignment, choice stream and shuffle; none outside '
+            'holds for any day enumeration; the pre-fix enumeration misses the 23:00->01:00 / 00:30 witness.',
+            'Trusted: strftime(%Y%m%d) is a parameter (injective, slash-free; passed as a table by the harness); datetime/'
+            'timedelta as minutes/days; UTC process clock; create and save at the same instant.', 'DESIGN.md 6/C16'),
+    'C10': ('Lean 4 theorems over models of the three lookup algorithms plus find_matching_recording_ids, reusing the C14 '
+            'matcher model; tied to /repo by saving the same 0-12 recordings on the real in-memory, file and S3 (fake bucket, '
+            'prefixes \'\', p, xmetadata, a/b, foreign objects) cassettes and running ~6 lookups each (filters from C14\'s '
+            'generator, limits {None,0,1,2,n,n+3}, ordered/random, skip_incomplete)',
+            'Kernel-checked for every cassette, directory order, choice stream and shuffle: never raises, sound, complete without '
+            'a limit, duplicate-free, min(limit, matches), fetchable, same set on all cassettes for JSON-native metadata, '
+            'skip-incomplete excludes exactly the flagged recordings, prefix-related categories cannot be confused.',
+            'Known finding K3 (S3 filters the JSON text of the metadata) is transcribed in the model, hypothesised away in '
+            'C10_same_set, exhibited by C10_k3_counterexample and witnessed in the corpus. Time windows are C16. Trusted: fake S3, '
+            'filesystem, jsonpickle round trip of metadata, fnmatch parameter.', 'DESIGN.md 6/C10'),
 }
 
 NOT_YET = 'check not built yet in this round (work in progress; see DESIGN.md section 6 for the planned proof and tie)'
